@@ -118,4 +118,11 @@ def witness(failure, ctx):
         bad = any("MismatchedTerminator" in l for l in lines) or any("assemble_load" in l and "Err" in l for l in lines)
         return {"found": bad, "exhaustive": False, "input": script, "observed": lines,
                 "how": "vreplay builder-script: the method closes the block (the following ret fails / the assembled module does not reload)"}
+    m = re.match(r"lemma::builder_\w+?_(\w+)$", item)
+    if m:
+        from . import method_sweep
+        allm = {x["name"] for x in method_sweep.methods()}
+        cand = [n for n in allm if item.endswith("_" + n)]
+        if cand:
+            return method_sweep.witness_for([max(cand, key=len)], ctx)
     return {"found": False, "exhaustive": False, "how": "the obligation compares the method's text with the loader specification"}
